@@ -119,21 +119,23 @@ theorem C12_kill_flag_is_never_lowered (rt : Bool) (n : Nat) (p q : List (Nat ×
     (hk : (Kill.run rt (Kill.init n) p).killed = true) : (Kill.run rt (Kill.init n) (p ++ q)).killed = true := by
   rw [Kill.run_append]; exact Kill.run_killed_mono rt q _ hk
 
--- @theorem C12_kill_protocol_keeps_exclusion : the second test and the give-back release do not disturb exclusion: along every schedule at most one thread has a guard, and a refused thread has returned the raw lock
-theorem C12_kill_protocol_keeps_exclusion (rt : Bool) (n : Nat) (sched : List (Nat × Kill.Act)) (t u : Nat)
-    (ht : (Kill.run rt (Kill.init n) sched).pc t = .holding) (hu : (Kill.run rt (Kill.init n) sched).pc u = .holding) :
-    t = u :=
-  Kill.exclusion rt n sched t u ht hu
+-- @theorem C12_kill_protocol_keeps_exclusion : the second test and the give-back release do not disturb exclusion: along every schedule (exclusive and shared acquisitions of one lock) a thread with an exclusive guard is the only thread with any guard, and a refused thread has returned the raw lock
+theorem C12_kill_protocol_keeps_exclusion (rt : Bool) (n : Nat) (sched : List (Nat × Kill.Act)) (t u : Nat) (m : Kill.Md)
+    (ht : (Kill.run rt (Kill.init n) sched).pc t = .holding .x)
+    (hu : (Kill.run rt (Kill.init n) sched).pc u = .holding m) : t = u :=
+  Kill.exclusion rt n sched t u m ht hu
 
--- @theorem C12_model_exhibits_D15_D15b_and_the_residual_window : the protocol without the second test hands a guard to a waiter (D15) and to a try in flight (D15b) after the flag went up; with the second test both are refused; and the window that remains is real: a waiter can pass the second test between a raw unlock that releases-then-panics and the store of the flag
+-- @theorem C12_model_exhibits_D15_D15b_and_the_residual_window : the protocol without the second test hands a guard to a waiter (D15) and to a try in flight (D15b) after the flag went up; with the second test both are refused (also on the shared path: a reader in flight when another reader's raw lock_shared kills the lock is refused and gives the lock back, the readers already inside keep their guards); and the window that remains is real: a waiter can pass the second test between a raw unlock that releases-then-panics and the store of the flag
 theorem C12_model_exhibits_D15_D15b_and_the_residual_window :
-    (Kill.run false (Kill.init 3) Kill.schedKillWhileWaiting).pc 1 = .holding ∧
+    (Kill.run false (Kill.init 3) Kill.schedKillWhileWaiting).pc 1 = .holding .x ∧
     (Kill.run false (Kill.init 3) Kill.schedKillWhileWaiting).killed = true ∧
-    (Kill.run false (Kill.init 2) Kill.schedKillDuringTry).pc 1 = .holding ∧
+    (Kill.run false (Kill.init 2) Kill.schedKillDuringTry).pc 1 = .holding .x ∧
     (Kill.run true (Kill.init 3) Kill.schedKillWhileWaiting).pc 1 = .refused ∧
-    (Kill.run true (Kill.init 3) Kill.schedKillWhileWaiting).holder = none ∧
+    (Kill.run true (Kill.init 3) Kill.schedKillWhileWaiting).writer = none ∧
     (Kill.run true (Kill.init 2) Kill.schedKillDuringTry).pc 1 = .refused ∧
-    (Kill.run true (Kill.init 2) Kill.schedResidual).pc 1 = .holding ∧
+    (Kill.run true (Kill.init 4) Kill.schedReadersKilled).pc 3 = .refused ∧
+    (Kill.run true (Kill.init 4) Kill.schedReadersKilled).readers = [1, 0] ∧
+    (Kill.run true (Kill.init 2) Kill.schedResidual).pc 1 = .holding .x ∧
     (Kill.run true (Kill.init 2) Kill.schedResidual).killed = true := by decide
 
 end HLV
